@@ -9,11 +9,16 @@
   Part II (receive path)  GetFWThread (dispatch_total), NDNLP link service (reassemble_total,
                           handleFrame_total, store_bounded, reject_no_state_change), readTlvStream
                           (stream_no_panic, stream_progress, stream_total).
-  Helper lemmas: ParseLemmas.lean, LinkLemmas.lean.  Core Lean only.
+  Part III (any reader)   the same decoders performing every access through the reader operations of
+                          std/encoding/readers.go (C03/Reader.lean): parseR_eq_parse, parse_segmented_eq_contiguous,
+                          parse_total_segmented / parse_fuel_free_segmented / parse_alloc_linear_segmented.
+  Helper lemmas: ParseLemmas.lean, LinkLemmas.lean, SegmentedModel.lean, SegmentedLemmas.lean.  Core Lean only.
 -/
 import NdnVerif.C04.Model
 import NdnVerif.C04.LinkLemmas
 import NdnVerif.C04.ParseLemmas
+import NdnVerif.C04.SegmentedLemmas
+import NdnVerif.C03.Props
 namespace Ndn.C04
 
 /-! # Part I — decoders -/
@@ -448,3 +453,218 @@ example : runStream [[1, 0xfe, 0xff, 0xff, 0xff, 0xff]] = ([], .err) := by
 
 
 end Ndn.C04
+
+/-! # Part III — the decoders over ANY healthy reader (segmented WireReader included)
+
+  the decoder theorems of C04 for EVERY healthy `enc.ParseReader`, in particular
+  for a `WireReader` over any segmentation of the input.
+
+  `Ndn.C13.parse` (C13/Model.lean) is the generated `Parse<Model>` code over a contiguous buffer;
+  `parseR` (SegmentedModel.lean) is the same code performing every access through the reader
+  operations of `std/encoding/readers.go` as modelled in C03/Reader.lean.  Here:
+
+    parseR_eq_parse                   on a healthy reader `At r b p` (BufferReader or WireReader at
+                                      any position of any segmentation) `parseR` has EXACTLY the
+                                      outcome of `parse` on the remaining bytes `b.drop p`: same
+                                      value, same allocation counter, same error / panic / fuel
+                                      outcome (full equality of `Ndn.C13.Res Vals`, nothing weakened)
+    readKind_any_reader               the same per field reader, including the reader that is left
+    parse_segmented_eq_contiguous     `parseR … (newWireReader segs) = parse … segs.flatten`
+    parse_buffer_eq_contiguous        `parseR … (newBufferReader b) = parse … b`
+    parse_total_segmented             ≤ 2^40 bytes in any segmentation: no panic
+    parse_fuel_free_segmented         never out of fuel
+    parse_alloc_linear_segmented      allocation ≤ 16 · total number of bytes
+    parse_total_reader / parse_fuel_free_reader / parse_alloc_linear_reader
+                                      the three for an arbitrary healthy reader
+
+  Hypothesis on the segmentation: `At` needs the segments AFTER THE FIRST to be non-empty
+  (`WireReader.nextSeg` skips empty segments but `Delegate`/`Skip` index `wire[seg]` directly);
+  `NonEmptySegs` (all segments non-empty) is what the link layer produces.  Both forms are stated.
+  No further hypothesis: any schema, any `ignoreCritical`, any bytes.
+-/
+namespace Ndn.C04.Seg
+open Ndn.C13
+open Ndn.C03 (Rd BufR WireR newWireReader newBufferReader At NonEmptySegs)
+
+/-! concrete schemas / inputs for the non-vacuity examples -/
+def exName : Schema := ⟨"x", false, .cons 7 .name .nil⟩
+def exNested : Schema :=
+  ⟨"y", true, .cons 1 (.natural false) (.cons 2 .binary (.cons 3 (.struct false (.cons 7 (.seq .name) .nil)) .nil))⟩
+def exSegs : List Bytes := [[7], [3, 8], [1, 65]]
+/-- `[1,1,5, 2,2,9,9, 3,6, 7,0, 7,2,8,0]` cut so that T/L numbers, the binary value, the struct value
+    (→ `WireReader.Delegate` returns a WireReader) and a name component all cross segment borders -/
+def exSegs2 : List Bytes := [[1, 1], [5, 2, 2, 9], [9, 3, 6, 7, 0, 7], [2, 8], [0]]
+
+theorem exSegs_ne : NonEmptySegs exSegs := by
+  intro s hs; simp [exSegs] at hs; rcases hs with h | h | h <;> simp [h]
+theorem exSegs2_ne : NonEmptySegs exSegs2 := by
+  intro s hs; simp [exSegs2] at hs; rcases hs with h | h | h | h | h <;> simp [h]
+
+/-! ## equality with the contiguous decoder -/
+
+/-- On a healthy reader over logical buffer `b` at position `p` the reader-based decoder returns
+    exactly what the contiguous decoder returns on the remaining bytes (value, allocation counter,
+    and every failure outcome). -/
+theorem parseR_eq_parse (s : Schema) (ic : Bool) (r : Rd) (b : Bytes) (p : Nat) :
+    At r b p → parseR s ic r = parse s ic (b.drop p) := fun h => parseR_sim s ic h
+
+/-- non-vacuity: a healthy WireReader in the middle of its second segment -/
+example : At (.wire ⟨[[9, 9], [9, 7, 3], [8, 1, 65]], 1, 1, 0⟩) [9, 9, 9, 7, 3, 8, 1, 65] 3 := by
+  refine ⟨?_, rfl, by decide⟩
+  refine ⟨by decide, by decide, by decide, ?_, by decide⟩
+  intro i h0 hi
+  have : i = 1 ∨ i = 2 := by simp at hi; omega
+  rcases this with rfl | rfl <;> simp [WireR.segAt]
+example : parseR exName false (.wire ⟨[[9, 9], [9, 7, 3], [8, 1, 65]], 1, 1, 0⟩)
+    = .ok (.cons (.name [⟨8, [65]⟩]) .nil) 64 := by rfl
+
+/-- The same for one field reader, with the reader that is left: it is healthy over the same buffer
+    at the position `p' ≥ p` the contiguous reader has reached. -/
+theorem readKind_any_reader (k : Kind) (l : Nat) (ic : Bool) (r : Rd) (b : Bytes) (p : Nat) (h : At r b p) :
+    match readKind k l ic (b.drop p) with
+    | .ok (v, rest') a => ∃ r' p', readKindR k l ic r = .ok (v, r') a ∧ p ≤ p' ∧ p' ≤ b.length
+                            ∧ At r' b p' ∧ rest' = b.drop p'
+    | .err a => readKindR k l ic r = .err a
+    | .panic => readKindR k l ic r = .panic
+    | .fuel => readKindR k l ic r = .fuel := by
+  have hs := readKindR_sim k l ic r b p h
+  cases hc : readKind k l ic (b.drop p) with
+  | ok y a =>
+    obtain ⟨v, rest'⟩ := y
+    rw [hc] at hs
+    cases hr : readKindR k l ic r with
+    | ok x a' =>
+      obtain ⟨v', r'⟩ := x
+      rw [hr] at hs
+      obtain ⟨⟨hv, p', hp, ha, hrest⟩, haa⟩ := hs
+      have hv : v' = v := hv
+      subst hv haa
+      exact ⟨r', p', rfl, hp, At_le ha, ha, hrest⟩
+    | err a' => rw [hr] at hs; exact hs.elim
+    | panic => rw [hr] at hs; exact hs.elim
+    | fuel => rw [hr] at hs; exact hs.elim
+  | err a =>
+    rw [hc] at hs
+    cases hr : readKindR k l ic r with
+    | ok x a' => rw [hr] at hs; exact hs.elim
+    | err a' => rw [hr] at hs; have hs : a' = a := hs; subst hs; rfl
+    | panic => rw [hr] at hs; exact hs.elim
+    | fuel => rw [hr] at hs; exact hs.elim
+  | panic =>
+    rw [hc] at hs
+    cases hr : readKindR k l ic r with
+    | ok x a' => rw [hr] at hs; exact hs.elim
+    | err a' => rw [hr] at hs; exact hs.elim
+    | panic => rfl
+    | fuel => rw [hr] at hs; exact hs.elim
+  | fuel =>
+    rw [hc] at hs
+    cases hr : readKindR k l ic r with
+    | ok x a' => rw [hr] at hs; exact hs.elim
+    | err a' => rw [hr] at hs; exact hs.elim
+    | panic => rw [hr] at hs; exact hs.elim
+    | fuel => rfl
+
+/-- non-vacuity: a name field whose value crosses two segment borders; the reader that is left is
+    parked at the end of the last segment -/
+example : readKindR .name 3 false (.wire ⟨[[7, 3, 8], [1], [65]], 0, 2, 0⟩)
+    = .ok (.name [⟨8, [65]⟩], .wire ⟨[[7, 3, 8], [1], [65]], 2, 1, 0⟩) 64 := by rfl
+/-- a component that overruns the announced name length is an error over the segmented reader as it
+    is over the contiguous one (`decComps` refuses it, the Go loop ends with `Pos() != endName`) -/
+example : readKindR .name 3 false (.wire ⟨[[8, 2], [65, 66, 67]], 0, 0, 0⟩) = .err 64
+    ∧ readKind .name 3 false [8, 2, 65, 66, 67] = .err 64 := ⟨by rfl, by rfl⟩
+
+/-- PROPERTY (any segmentation): decoding over a WireReader on ANY segmentation whose segments after
+    the first are non-empty gives exactly the outcome of decoding the joined bytes. -/
+theorem parse_segmented_eq_contiguous' (s : Schema) (ic : Bool) (segs : List Bytes)
+    (h : ∀ i, 0 < i → i < segs.length → segs.getD i [] ≠ []) :
+    parseR s ic (newWireReader segs) = parse s ic segs.flatten := by
+  have := parseR_eq_parse s ic _ _ _ (C03.at_newWireReader segs h)
+  rwa [List.drop_zero] at this
+
+theorem parse_segmented_eq_contiguous (s : Schema) (ic : Bool) (segs : List Bytes) (h : NonEmptySegs segs) :
+    parseR s ic (newWireReader segs) = parse s ic segs.flatten := by
+  have := parseR_eq_parse s ic _ _ _ (C03.newWireReader_healthy segs h)
+  rwa [List.drop_zero] at this
+
+/-- non-vacuity: the hypotheses are met and both sides really decode -/
+example : NonEmptySegs exSegs := exSegs_ne
+example : parseR exName false (newWireReader exSegs) = .ok (.cons (.name [⟨8, [65]⟩]) .nil) 64 := by rfl
+example : parse exName false exSegs.flatten = .ok (.cons (.name [⟨8, [65]⟩]) .nil) 64 := by rfl
+example : parseR exNested false (newWireReader exSegs2)
+    = .ok (.cons (.nat 5) (.cons (.bytes [9, 9])
+        (.cons (.struct (.cons (.seq (.cons (.name []) (.cons (.name [⟨8, []⟩]) .nil))) .nil)) .nil))) 98 := by
+  rfl
+/-- an empty FIRST segment is covered by the primed form -/
+example : parseR exName false (newWireReader [[], [7, 3, 8], [1, 65]]) = parse exName false [7, 3, 8, 1, 65] :=
+  parse_segmented_eq_contiguous' exName false [[], [7, 3, 8], [1, 65]] (by
+    intro i h0 hi
+    have : i = 1 ∨ i = 2 := by simp at hi; omega
+    rcases this with rfl | rfl <;> simp)
+
+/-- the BufferReader instance: `parseR` over `enc.NewBufferReader(b)` is `parse` -/
+theorem parse_buffer_eq_contiguous (s : Schema) (ic : Bool) (b : Bytes) :
+    parseR s ic (newBufferReader b) = parse s ic b := by
+  have := parseR_eq_parse s ic _ _ _ (C03.at_newBufferReader b)
+  rwa [List.drop_zero] at this
+
+example : parseR exName false (newBufferReader [7, 3, 8, 1, 65]) = .ok (.cons (.name [⟨8, [65]⟩]) .nil) 64 := by rfl
+
+/-! ## the three decoder properties over any healthy reader -/
+
+theorem parse_total_reader (s : Schema) (ic : Bool) (r : Rd) (b : Bytes) (p : Nat) (h : At r b p)
+    (hl : b.length ≤ maxInput) : parseR s ic r ≠ .panic := by
+  rw [parseR_eq_parse s ic r b p h]
+  exact parse_total s ic (b.drop p) (by simp only [List.length_drop]; omega)
+
+theorem parse_fuel_free_reader (s : Schema) (ic : Bool) (r : Rd) (b : Bytes) (p : Nat) (h : At r b p) :
+    parseR s ic r ≠ .fuel := by
+  rw [parseR_eq_parse s ic r b p h]
+  exact parse_fuel_free s ic (b.drop p)
+
+theorem parse_alloc_linear_reader (s : Schema) (ic : Bool) (r : Rd) (b : Bytes) (p : Nat) (h : At r b p)
+    (hl : b.length ≤ maxInput) : (parseR s ic r).alloc ≤ 16 * (b.length - p) := by
+  rw [parseR_eq_parse s ic r b p h]
+  have := parse_alloc_linear s ic (b.drop p) (by simp only [List.length_drop]; omega)
+  simpa only [List.length_drop] using this
+
+/-! ## … and over a WireReader on any segmentation -/
+
+/-- PROPERTY (no panic): at most 2^40 bytes, in any segmentation, under any schema: no panic. -/
+theorem parse_total_segmented (s : Schema) (ic : Bool) (segs : List Bytes) (h : NonEmptySegs segs) :
+    segs.flatten.length ≤ maxInput → parseR s ic (newWireReader segs) ≠ .panic := by
+  intro hl
+  rw [parse_segmented_eq_contiguous s ic segs h]
+  exact parse_total s ic _ hl
+
+/-- non-vacuity: a length field far beyond the input, cut in the middle of the length number, is an
+    error (nothing allocated), not a panic -/
+example : NonEmptySegs [[7, 0xfe, 0xff], [0xff, 0xff, 0xff, 8], [1, 65]] := by
+  intro s hs; simp at hs; rcases hs with h | h | h <;> simp [h]
+example : parseR exName false (newWireReader [[7, 0xfe, 0xff], [0xff, 0xff, 0xff, 8], [1, 65]]) = .err 0 := by rfl
+
+/-- PROPERTY (termination): fuel `Length() - Pos() + 1` always suffices, whatever the input. -/
+theorem parse_fuel_free_segmented (s : Schema) (ic : Bool) (segs : List Bytes) (h : NonEmptySegs segs) :
+    parseR s ic (newWireReader segs) ≠ .fuel := by
+  rw [parse_segmented_eq_contiguous s ic segs h]
+  exact parse_fuel_free s ic _
+
+/-- non-vacuity: the fuel outcome is real in the reader-based model (no fuel, no iteration) -/
+example : loopUR (compileR exName.fields) false 0 (newWireReader exSegs) (initAccR (compileR exName.fields))
+    = .fuel := by rfl
+example : NonEmptySegs exSegs2 := exSegs2_ne
+
+/-- PROPERTY (allocation): what a parse allocates on the say-so of length fields is at most 16 bytes
+    per input byte, whatever the segmentation. -/
+theorem parse_alloc_linear_segmented (s : Schema) (ic : Bool) (segs : List Bytes) (h : NonEmptySegs segs) :
+    segs.flatten.length ≤ maxInput → (parseR s ic (newWireReader segs)).alloc ≤ 16 * segs.flatten.length := by
+  intro hl
+  rw [parse_segmented_eq_contiguous s ic segs h]
+  exact parse_alloc_linear s ic _ hl
+
+/-- non-vacuity and tightness: an empty name in two one-byte segments allocates 32 = 16 · 2 bytes -/
+example : (parseR exName false (newWireReader [[7], [0]])).alloc = 32 ∧ 16 * [[7], [0]].flatten.length = 32 :=
+  ⟨by rfl, by rfl⟩
+example : NonEmptySegs [[7], [0]] := by intro s hs; simp at hs; rcases hs with h | h <;> simp [h]
+
+end Ndn.C04.Seg
